@@ -75,10 +75,17 @@ def run(ctx):
         m = rng.randint(0, 12)
         al = rng.choice(alphas[:4])
         big = rng.random() < 0.15
-        xs = [''.join(rng.choice(al) for _ in range(rng.choice([300, 350, 400]) if big and i < 2 else rng.randint(0, 12))) for i in range(m)]
+        mid = (not big) and rng.random() < 0.12       # weighted distances above 255 between strings shorter than 256 (a narrowed dtype shows)
+        if mid:
+            m = max(m, 3)
+        xs = [''.join(rng.choice(al) for _ in range(rng.choice([300, 350, 400]) if big and i < 2 else
+                                                    (rng.choice([120, 150, 200, 250]) if mid and i < 3 else rng.randint(0, 12)))) for i in range(m)]
         ys = [gens.mutate(rng, rng.choice(xs), al, rng.randint(0, 3)) if xs and rng.random() < 0.6 else ''.join(rng.choice(al) for _ in range(rng.randint(0, 9)))
               for _ in range(rng.randint(0, 8))]
-        w = (1, 1, 1) if (big or rng.random() < 0.4) else tuple(rng.choice(W) for _ in range(3))
+        w = (1, 1, 1) if (big or (rng.random() < 0.4 and not mid)) else tuple(rng.choice(W) for _ in range(3))
+        if mid and max(w) == 1:
+            w = (2, 2, 3)
+        ctx.count('collection_long_weighted' if mid else ('collection_long_unit' if big else 'collection_short'))
         colls.append((xs, ys, w))
     reqs = []
     for xs, ys, w in colls:
